@@ -27,6 +27,13 @@ FILES = {
     "c4pkg/a/b/sibling.py": "class S:\n    pass\n",
     "c4pkg/json.py": "import json\nclass Enc:\n    e: json.JSONEncoder\nm: json.JSONDecoder = None\n",
     "c4pkg/shapes.py": "from c4pkg.a import shared as shapes2\nclass Sh:\n    s: shapes2.Y\n",
+    # base classes are evaluated where the class statement stands: a member of the class body named like the first name of a base expression
+    # (or like the base itself) must not capture it
+    "c4pkg/bases.py": "from c4pkg import shared\nfrom c4pkg.a.b import sibling\nfrom c4pkg.shared import Top\n"
+                      "class Plain(shared.Top):\n    pass\n"
+                      "class Shadow(shared.X):\n    shared = 'a member named like the first name of the base expression'\n"
+                      "class Same(Top):\n    class Top:\n        pass\n"
+                      "class Outer:\n    class S:\n        pass\n    class Uses(sibling.S):\n        sibling = 1\n",
 }
 
 
@@ -72,13 +79,33 @@ def sweep():
         try:
             ld = GriffeLoader(search_paths=[tmp], allow_inspection=False)
             pkg = ld.load("c4pkg")
-            for modname in ["c4pkg.a", "c4pkg.a.b", "c4pkg.a.b.leaf", "c4pkg.json", "c4pkg.shapes"]:
+            for modname in ["c4pkg.a", "c4pkg.a.b", "c4pkg.a.b.leaf", "c4pkg.json", "c4pkg.shapes", "c4pkg.bases"]:
                 pymod = importlib.import_module(modname)
                 gmod = pkg[modname.split(".", 1)[1]]
                 scopes = [(pymod, gmod)]
                 for cname, cobj in vars(pymod).items():
                     if isinstance(cobj, type) and cobj.__module__ == modname:
                         scopes.append((cobj, gmod[cname]))
+                        for inner_name, inner in vars(cobj).items():
+                            if isinstance(inner, type) and inner.__module__ == modname and inner.__qualname__.startswith(cobj.__qualname__ + "."):
+                                scopes.append((inner, gmod[cname][inner_name]))
+                # base classes: the expression stored for each base resolves to the class CPython put in __bases__
+                for pyscope, gscope in scopes[1:]:
+                    pybases = [b for b in pyscope.__bases__ if b is not object]
+                    if len(pybases) != len(gscope.bases):
+                        problems.append(f"{gscope.path}: {len(gscope.bases)} base expressions, CPython has {len(pybases)} bases")
+                        continue
+                    for bexpr, pybase in zip(gscope.bases, pybases):
+                        n += 1
+                        exp = expected_path(pybase)
+                        try:
+                            got = bexpr.canonical_path
+                            tgt = ld.modules_collection.get_member(got)
+                            final = tgt.final_target.path if tgt.is_alias else tgt.path
+                        except BaseException:  # noqa: BLE001
+                            final = got if "got" in dir() else None
+                        if final != exp and py_object(final or "") is not pybase:
+                            problems.append(f"{gscope.path}: base {bexpr} resolves to {got!r} (-> {final!r}), CPython's base is {exp!r}")
                 for pyscope, gscope in scopes:
                     anns = getattr(pyscope, "__annotations__", {})
                     for attr, bound in anns.items():
